@@ -317,6 +317,13 @@ def libTask : String → Option TaskDef
       match a "new_execution" with
       | .bool ne => .ok (.subrun (tcall "ev.twice" [a "x"]) ne)
       | _ => .unk
+  | "ev.s_inc" => some <| mkTask [p "x"] fun a => pyAdd (a "x") (.int 1)
+  | "ev.s_raiser" => some <| mkTask [p "kind", p "tag"] fun a => raiserE (a "kind") (a "tag")
+  | "ev.s_fail_after" => some <| mkTask [p "n", p "kind"] fun a =>
+      match a "n" with
+      | .int n => if n ≤ 0 then .ok (tcall "ev.s_raiser" [a "kind", .str "sdeep"])
+                  else .ok (tcall "ev.s_fail_after" [.int (n - 1), a "kind"])
+      | _ => .unk
   | "ev.a_inc" => some <| mkTask [p "x"] fun a => pyAdd (a "x") (.int 1)
   -- `y = await inc(x); return inc(y)`: the awaited expression is evaluated under the same job
   | "ev.a_twice" => some <| mkTask [p "x"] fun a => .ok (tcall "ev.inc" [tcall "ev.inc" [a "x"]])
